@@ -138,7 +138,11 @@ pub fn text_case(out: &mut Out, s: &str) {
     // from_dna_string
     let s1 = s.to_string();
     match guard(move || DnaString::from_dna_string(&s1)) {
-        None => out.case("a.str", inp(), V::Bot),
+        None => {
+            out.case("a.str", inp(), V::Bot);
+            // the str constructor is total on every text (C14_from_str): a panic is a failing input
+            out.case("s.a.strmask", inp(), V::Bot);
+        }
         Some(d) => {
             out.case("a.str", inp(), ds_v(&d));
             // C14: whatever the text, one base per char; ASCII chars by the table (a non-ASCII position is left open: 4)
